@@ -6,6 +6,7 @@ import ast
 import re
 
 from ..report import norm_text
+from ._pipe import in_stage
 
 GOOD_MODES = ("same", "unordered", "dict-insertion")
 RESHAPE_OK = re.compile(r"^(\['-1'\]|\['rows', '-1'\]|\['(rows|-1)\+shape\(.*\)'\]|\['shape\(.*\)'\])$")
@@ -27,8 +28,10 @@ def mode_of(order_repr: str | None):
     return m.group(1) if m else None
 
 
-def check_layout(ctx, rule, res, only_functions=None, label=""):
-    """Emits obligations for every pack / zip / unpack / reshape event of one path. Returns counts."""
+def check_layout(ctx, rule, res, only_functions=None, label="", row_order=None):
+    """Emits obligations for every pack / zip / unpack / reshape event of one path. Returns counts.
+    row_order: callable returning the verdict of the instance runs on 'the rows of the Jacobian come out in the order of the
+    cotangents' (asked when the order of a sequence of row blocks packed along dim 0 is unknown to the symbolic run)."""
     n = 0
     seen = set()
 
@@ -48,7 +51,15 @@ def check_layout(ctx, rule, res, only_functions=None, label=""):
             if not once(("pack", kk, md)):
                 continue
             n += 1
-            if md is None:
+            if md is None and row_order is not None and e["dim"] == 0 and e["fn"] in ("vstack", "cat", "concatenate") and in_stage(e):
+                st, text, der = row_order()
+                if st == "ok":
+                    ctx.ok(rule, kk, text + " [the symbolic run does not know the order of this sequence of row blocks]", e["loc"], derivation=der)
+                elif st == "violated":
+                    ctx.violated(rule, kk, text, e["loc"], derivation=der)
+                else:
+                    ctx.undecided(rule, kk, f"order of the packed sequence is unknown ({e['order']}); " + text, e["loc"])
+            elif md is None:
                 ctx.undecided(rule, kk, f"order of the packed sequence is unknown ({e['order']})", e["loc"])
             else:
                 ctx.require(md in GOOD_MODES, rule, kk, f"packs in order {e['order']}",
@@ -75,7 +86,7 @@ def check_layout(ctx, rule, res, only_functions=None, label=""):
                 continue
             const_bounds = (e["lo"] in ("None",) or e.get("lo_poly") is not None) and (e["hi"] in ("None",) or e.get("hi_poly") is not None)
             prefix = (e.get("lo_note") or "").startswith("prefix-sum") or (e.get("hi_note") or "").startswith("prefix-sum")
-            if e["axis"] == 0 and e["layout_how"] in (None, "stack", "vstack") and not prefix and "_differentiate" in e["function"]:
+            if e["axis"] == 0 and e["layout_how"] in (None, "stack", "vstack") and not prefix and in_stage(e):
                 continue  # row-block (chunk) slicing of the cotangents: decided under C07
             if e["layout"] is None:
                 chunk = set(e.get("lo_origin") or []) | set(e.get("hi_origin") or [])
